@@ -72,7 +72,8 @@ TOLERANCES = {
                    'applications of the deliberate 10*resolution = 45 eps '
                    'shrink); IndicatorSimplex / '
                    'IndicatorSumConstraint additionally accept their '
-                   'documented sum_rtol',
+                   'documented sum_rtol; probes count as feasible only '
+                   'within 16*n*eps*(own magnitude)',
     'firm': '<px-py, x-y>_M - |px-py|_M^2 >= -1e3*eps*(1 + (|x|_M + |y|_M + '
             '|px|_M + |py|_M)^2)',
     'idempotence/step independence': 'max|a-b| <= 1e3*eps*max(1, sigma_eff)*'
@@ -96,14 +97,20 @@ ASSUMPTIONS = [
     'SeparableSum lives on the unweighted product of the summands domains; '
     'NuclearNorm on unweighted (base^m)^n with weighted base',
     'the value of a default convex conjugate is never needed: its proximal '
-    'is certified through the Moreau identity on the primal functional',
+    'is certified through the Moreau identity on the primal functional; a '
+    'linear/quadratic perturbation on top of a constraint set is certified '
+    'after completing the square (exact identity), all other derived '
+    'functionals on their own documented value',
+    'firm non-expansiveness, idempotence and step independence are checked '
+    'in the metric M = W/sigma of the step actually passed',
     'uniform_discr axes have >= 2 points (cell_sizes of one-point axes are '
     'documented as 0.0)',
 ]
 RULE = ('Hypothesis draws (entry, parameters, space, rule chain, step, x, y, '
         'probe seed) from the catalogue in vlib/zoo_prox.py; a fixed '
         'derandomised sweep adds >= 2 cases per (entry x space kind x '
-        'weighting kind) cell; non-trivial = certificate evaluated on >= 10 '
+        'weighting kind) and per (entry x space kind x parameter class) '
+        'cell; non-trivial = certificate evaluated on >= 10 '
         'finite probes and p != x and p != 0 and dimension >= 2; distinct by '
         'sha1 of the case descriptor')
 EXHAUSTIVE = {
@@ -177,7 +184,7 @@ def _wrap(draw, fd, e, rsp, mode, exp_type, el_ok):
     if rule == 'argscale':
         s = draw(scal)
         if (direct and e.name in ZERO_SCALE_OK and
-                not _has_rejection(fd) and draw(st.integers(0, 3)) == 0):
+                not _has_rejection(fd) and draw(st.booleans())):
             s = 0.0
         if mode == 'functional' and s < 0 and zoo.is_linear_tree(fd):
             s = -s      # see the catalogue entry 'ZeroFunctional*neg'
@@ -201,7 +208,8 @@ def _wrap(draw, fd, e, rsp, mode, exp_type, el_ok):
         a = draw(st.sampled_from([0.0, 0.5, 1.0, 3.0, 0.1, 0.0]))
         if draw(st.integers(0, 11)) == 0:
             a = -1.0
-        u = draw(zoo.vecs(n)) if draw(st.booleans()) else None
+        u = (draw(zoo.vecs(n, scale=0.2 if exp_type else 1.0))
+             if draw(st.booleans()) else None)
         node = {'t': 'quadpert', 'f': fd, 'a': a, 'u': u}
         if mode == 'functional':
             node['c'] = draw(zoo.CONSTS)
@@ -453,7 +461,8 @@ class Problem(object):
 
     def gap(self, z):
         """(gap, tol, finite): gap >= -tol is the certificate at z."""
-        fz, magz = self.node.ev(z, self.amb)
+        with R.strict_membership():
+            fz, magz = self.node.ev(z, 0.0)
         if not np.isfinite(fz):
             return 0.0, 0.0, False
         d = z - self.p
@@ -466,7 +475,8 @@ class Problem(object):
         return gap, tol, True
 
     def objective(self, z):
-        fz = self.node.value(z, self.amb)
+        with R.strict_membership():
+            fz = self.node.value(z, 0.0)
         if not np.isfinite(fz):
             return 1e300
         return fz + 0.5 * float(np.sum(self.M * (z - self.x) ** 2))
@@ -826,7 +836,7 @@ def _run_tree(desc):
                 'with |z-p|_M = {:.3g}; f(p)={:.6g} f(z)={:.6g}; p={} z={} '
                 'x={} sigma={}{}'.format(
                     gap, tol, _mnorm(pb.M, z - pb.p), pb.fp,
-                    node.value(z, pb.amb), _short(pb.p), _short(z),
+                    node.value(z, 0.0), _short(pb.p), _short(z),
                     _short(pb.x), _short(np.atleast_1d(sigma_flat)),
                     ' (after Moreau/rule reduction)'
                     if len(problems) > 1 or pb.node is not ref else ''))
